@@ -1271,6 +1271,89 @@ theorem C05_partial_passes_partial (w : Wrap) (coin : Coin) (tx : Tx) (us : List
         rw [hcode _ hcan, sv_witness]
         exact hz
 
+/-- **The order of the passes does not matter, on the model** (`_partial`: hypotheses `hcross`, `hunf` as in
+`C05_partial_passes_partial`).  For two orderings `ls₁ ~ ls₂` of the same signing passes over a fresh m-of-n input: the number of
+signatures present at the end is the same, so the spend is valid after the one exactly when it is valid after the other; and
+as long as no more than `m` distinct listed keys are supplied in total, the blobs left are identical byte for byte.  (With more
+than `m` keys on offer, which `m` of them sign does depend on the order — every choice is valid.)  This replaces the
+hypothesis of `C05_partial_order_independent_partial` (that both orders collect the same multiset) by a derivation from the
+model: existing signatures are re-found by verification, RFC 6979 makes each key's signature unique. -/
+theorem C05_partial_order_independent_passes_partial (w : Wrap) (coin : Coin) (tx : Tx) (us : List (Option TxOut)) (idx : Nat)
+    (m : Nat) (keys : List Bytes) (d x y : Nat → Int) (comp : Nat → Bool) (sg : Nat → Bytes) (z : Int) (ht : Nat)
+    (flags : Flags) (txc : TxCtx) (ls₁ ls₂ : List Lookup) (hperm : ls₁.Perm ls₂) (hne : ls₁ ≠ [])
+    (hm1 : 1 ≤ m) (hmn : m ≤ keys.length) (hn : keys.length ≤ 20)
+    (HK : HonestKeys keys.reverse d x y comp)
+    (hz : modelSighash coin tx us idx w.witness (multisigScriptN m keys) ht = some z)
+    (hsg : SignsWith keys.reverse d z ht sg) (hl : ∀ l ∈ ls₁, LookupFor keys.reverse d l)
+    (hcross : NoCross keys.reverse d x y z) (hunf : PlaceholderUnverifiable)
+    (hht : ht ≤ 255) (hstd : standardHashType ht ∨ flags.strictenc = false)
+    (hcomp : w.witness = true → ∀ i, comp i = true)
+    (ok : w.Ok (multisigScriptN m keys) flags)
+    (hcode : ∀ sigs, (∀ s ∈ sigs, Canonical ht s) → CodeIs w (multisigScriptN m keys) flags txc sigs) :
+    let run := fun ls => runPasses secp256k1Crypto (modelSighash coin tx us idx w.witness (multisigScriptN m keys)) ht
+      Gen.Sign.defaultPlaceholder m keys (w.extra (multisigScriptN m keys)) ls []
+    let final := fun (ls : List Lookup) => runSets keys.reverse.length m (ls.map (fun l => inTOf l keys.reverse)) (fun _ => false)
+    let valid := fun (ls : List Lookup) => verifyScript (realChk coin tx us idx)
+        (w.scriptSig (multisigScriptN m keys) (stateSolved keys.reverse.length m sg Gen.Sign.defaultPlaceholder (final ls)))
+        (w.spk (multisigScriptN m keys))
+        (w.wit (multisigScriptN m keys) (stateSolved keys.reverse.length m sg Gen.Sign.defaultPlaceholder (final ls)))
+        flags txc = none
+    card keys.reverse.length (final ls₁) = card keys.reverse.length (final ls₂) ∧ (valid ls₁ ↔ valid ls₂) ∧
+    (card keys.reverse.length (unionSets (ls₁.map (fun l => inTOf l keys.reverse)) (fun _ => false)) ≤ m → run ls₁ = run ls₂) := by
+  intro run final valid
+  have hne2 : ls₂ ≠ [] := by
+    intro h; rw [h] at hperm; exact hne hperm.eq_nil
+  have hl2 : ∀ l ∈ ls₂, LookupFor keys.reverse d l := fun l hl' => hl l (hperm.mem_iff.mpr hl')
+  have hpT : (ls₁.map (fun l => inTOf l keys.reverse)).Perm (ls₂.map (fun l => inTOf l keys.reverse)) := hperm.map _
+  have h0 : card keys.reverse.length (fun _ => false) ≤ m := by rw [card_eq_countP]; simp
+  obtain ⟨r1, c1, v1⟩ := C05_partial_passes_partial w coin tx us idx m keys d x y comp sg z ht flags txc ls₁ hne hm1 hmn hn HK hz hsg
+    hl hcross hunf hht hstd hcomp ok hcode
+  obtain ⟨r2, c2, v2⟩ := C05_partial_passes_partial w coin tx us idx m keys d x y comp sg z ht flags txc ls₂ hne2 hm1 hmn hn HK hz
+    hsg hl2 hcross hunf hht hstd hcomp ok hcode
+  have hu : card keys.reverse.length (unionSets (ls₁.map (fun l => inTOf l keys.reverse)) (fun _ => false)) =
+      card keys.reverse.length (unionSets (ls₂.map (fun l => inTOf l keys.reverse)) (fun _ => false)) :=
+    card_congr (fun i _ => unionSets_perm hpT _ i)
+  refine ⟨runSets_perm_card _ m hpT _ h0, ?_, ?_⟩
+  · show valid ls₁ ↔ valid ls₂
+    simp only [valid, final]
+    rw [v1, v2, hu]
+  · intro hfit
+    show run ls₁ = run ls₂
+    simp only [run]
+    rw [r1, r2, stateSolved_congr _ m sg _ (runSets_perm_eq _ m hpT _ hfit)]
+
+/-- **Wrong keys leave the input failing validation** (`_partial`: `hwrong` is unforgeability-style).  Whatever secrets the lookup
+maps the listed keys' hashes to — `sg i` is the signature the lookup's entry for key `i` makes, right secret or not — the model's
+first pass fills the signature variables with them; if one of those it used verifies for no listed key (a signature made with
+another secret: it is valid for *that* secret's key only), the consensus specification rejects the spend, whatever the wrapper
+and however many other signatures are good. -/
+theorem C05_multisig_wrong_key_rejected_partial (chk : PChk) (w : Wrap) (dig : Digest) (lookup : Lookup) (ph : Bytes) (m : Nat)
+    (keys : List Bytes) (sg : Nat → Bytes) (z : Int) (ht : Nat) (flags : Flags) (txc : TxCtx)
+    (hm1 : 1 ≤ m) (hmn : m ≤ keys.length) (hn : keys.length ≤ 20) (hz : dig ht = some z)
+    (hh : LookupHonest secp256k1Crypto lookup ht z sg (enumFrom 0 keys.reverse).reverse)
+    (hs : SizesOk keys sg ph) (ok : w.Ok (multisigScriptN m keys) flags)
+    (bad : Nat) (hbad : passSet keys.reverse.length m (fun _ => false) (inTOf lookup keys.reverse) bad = true)
+    (hwrong : ∀ k ∈ keys, ∀ code sv, chk (sg bad) k code sv = false) :
+    solveBase secp256k1Crypto lookup dig [] ht (some ph) (.multisig m keys) =
+      .ok ((stateSolved keys.reverse.length m sg ph
+        (passSet keys.reverse.length m (fun _ => false) (inTOf lookup keys.reverse))).map some) ∧
+    verifyScript chk
+      (w.scriptSig (multisigScriptN m keys) (stateSolved keys.reverse.length m sg ph
+        (passSet keys.reverse.length m (fun _ => false) (inTOf lookup keys.reverse))))
+      (w.spk (multisigScriptN m keys))
+      (w.wit (multisigScriptN m keys) (stateSolved keys.reverse.length m sg ph
+        (passSet keys.reverse.length m (fun _ => false) (inTOf lookup keys.reverse)))) flags txc ≠ none := by
+  have h0 : card keys.reverse.length (fun _ => false) ≤ m := by rw [card_eq_countP]; simp
+  refine ⟨by rw [solveBase_multisig_fresh keys hz lookup m ph hh, stateSolved_map_some], ?_⟩
+  apply state_reject_of_bad chk w m keys sg ph _ flags txc ok hm1 hmn hn hs (pass_card_le _ m _ _ h0)
+  refine ⟨sg bad, ?_, fun k hk => hwrong k hk _ _⟩
+  unfold stateSigs
+  apply List.mem_append_right
+  apply List.mem_map.mpr
+  refine ⟨bad, mem_signedList.mpr ⟨?_, hbad⟩, rfl⟩
+  simp only [passSet, Bool.false_or, List.contains_iff_mem] at hbad
+  exact (mem_picks hbad).1
+
 section digests
 open Pycoin.Sighash
 
